@@ -48,7 +48,10 @@ def _case(draw):
             # history: the calculator may have been used before for a shot along another sight line
             "used_before_look_deg": draw(st.one_of(st.none(), st.floats(-50.0, 50.0))),
             # history: an attempt at a target far out of reach on the same calculator and the same Shot object comes first
-            "fail_first_ft": draw(st.one_of(st.none(), st.none(), st.none(), st.none(), st.none(), st.floats(6000.0, 12000.0)))}
+            "fail_first_ft": draw(st.one_of(st.none(), st.none(), st.none(), st.none(), st.none(), st.floats(6000.0, 12000.0))),
+            # history: the same Shot object was zeroed at the same distance on the same calculator while one of its fields
+            # still had another value; the field is then edited in place
+            "rezero_after_edit": draw(st.sampled_from([None, None, None, None, "look", "winds", "mv", "sight_height", "atmo"]))}
 
 
 def _height_at(calc, spec, elev_total, Rh):
@@ -78,6 +81,30 @@ def check(case):
         build.fire(calc, build.shot(dict(spec, look=case["used_before_look_deg"] * gen.DEG, winds=None)), 40.0, 20.0)
         r.label("calculator-used-before")
     sh = build.shot(spec)
+    edit = case.get("rezero_after_edit")
+    if edit:
+        was = {"look": dict(look=look + (8.0 if look < 0 else -8.0) * gen.DEG), "winds": dict(winds=[[30.0, math.pi / 2, 1e8]]),
+               "mv": dict(mv=spec["mv"] * 0.7), "sight_height": dict(sh=spec.get("sh", 0.0) + 3.0),
+               "atmo": dict(atmo={"kind": "icao", "alt": 8000.0})}[edit]
+        sh = build.shot(dict(spec, **was))
+        try:
+            calc.set_weapon_zero(sh, D.Foot(Dz))
+        except (pb.ZeroFindingError, pb.RangeError):
+            pass
+        if edit == "look":
+            sh.look_angle = pb.Angular.Radian(look)
+        elif edit == "winds":
+            sh.winds = build.winds(spec)
+        elif edit == "mv":
+            sh.ammo.mv = pb.Velocity.FPS(spec["mv"])
+        elif edit == "sight_height":
+            sh.weapon.sight_height = D.Inch(spec.get("sh", 0.0))
+        else:
+            sh.atmo = build.atmo(spec)
+        sh.weapon.zero_elevation = pb.Angular.Radian(spec["zero"])
+        r.label("rezero-after-in-place-edit:" + edit)
+        if build.snapshot_shot(sh) != build.snapshot_shot(build.shot(spec)):
+            raise AssertionError("harness: edited shot does not match the case")
     if case.get("fail_first_ft") is not None:
         snap0 = build.snapshot_shot(sh)
         try:
